@@ -6,6 +6,7 @@ import (
 	"go/token"
 	"go/types"
 	"sort"
+	"strconv"
 	"strings"
 
 	"golang.org/x/tools/go/ssa"
@@ -43,6 +44,7 @@ func checkC11(p *Prog, r *Report) {
 	ruleC11NoCache(p, a, r)
 	ruleC11Rooted(p, a, r)
 	ruleC11StaticName(p, a, r)
+	ruleC11ReadErrors(p, a, r)
 }
 
 func implementsLoader(p *Prog, a *Anchors, f *ssa.Function) bool {
@@ -516,6 +518,29 @@ func ruleC11Only(p *Prog, a *Anchors, r *Report) {
 			} else {
 				r.OK(name+":with-pairs", p.InstrPos(in), "with-pairs are stored into the fresh include context regardless of `only`")
 			}
+			// … and EVERY pair is stored, whatever it evaluates to: in the loop over the pairs each pass that evaluated
+			// its expression reaches the store before the next pass (a pair that is skipped, e.g. because its value is
+			// nil, lets the includer's variable of the same name show through)
+			if hdr := innermostLoopHeader(mu.Block()); hdr != nil {
+				var eval ssa.Instruction
+				for _, lb := range f.Blocks {
+					if !hdr.Dominates(lb) || !ReachableBlocks(lb)[hdr] {
+						continue
+					}
+					for _, li := range lb.Instrs {
+						if c, isC := li.(*ssa.Call); isC && c.Common().IsInvoke() && c.Common().Method.Name() == "Evaluate" {
+							eval = li
+						}
+					}
+				}
+				if eval != nil {
+					if MustPassFrom(eval.Block(), instrIndex(eval)+1, hdr.Instrs[0], func(x ssa.Instruction) bool { return x == ssa.Instruction(mu) }) {
+						r.OK(name+":with-pairs:every", p.InstrPos(in), "every evaluated pair is stored before the next one is looked at")
+					} else {
+						r.Bad(name+":with-pairs:every", p.InstrPos(in), "a pair can be evaluated and then skipped (the loop continues without storing it): its name stays what the includer's context says, e.g. `include \"x\" with user=visitor` shows the includer's `user` when visitor is nil")
+					}
+				}
+			}
 		}
 	}
 	if !found {
@@ -819,5 +844,147 @@ func ruleC11StaticName(p *Prog, a *Anchors, r *Report) {
 		} else {
 			r.Bad(key, p.InstrPos(in), "the include is taken for a static one on the strength of its first token alone: {%% include \"d/\" + n %%} fetches and compiles \"d/\" at compile time, a name the template never references, and then fails")
 		}
+	}
+}
+
+// innermostLoopHeader: the header of the innermost natural loop that contains b (nil if none).
+func innermostLoopHeader(b *ssa.BasicBlock) *ssa.BasicBlock {
+	var hdr *ssa.BasicBlock
+	for _, h := range b.Parent().Blocks {
+		if !h.Dominates(b) {
+			continue
+		}
+		back := false
+		for _, pr := range h.Preds {
+			if h.Dominates(pr) && ReachableBlocks(b)[pr] {
+				back = true
+			}
+		}
+		if back && (hdr == nil || hdr.Dominates(h)) {
+			hdr = h
+		}
+	}
+	return hdr
+}
+
+// ruleC11ReadErrors: "a missing name is an error": what the loaders hand out has to be read completely — the error of
+// reading a loader's reader (io.ReadAll) and the error of the resolver itself are looked at on every path: tested
+// against nil, returned, or handed on. An error that is computed and then never used (a `:=` that shadows the variable
+// tested afterwards) lets {% ssi "x" %} render an empty text for a file that could not be read.
+func ruleC11ReadErrors(p *Prog, a *Anchors, r *Report) {
+	r.Begin("R-C11-READERR", "the error result of every read of a loader's reader (io.ReadAll) and of the set's resolver, in engine code outside the loaders, is used: compared with nil, returned or passed on", 2)
+	resolver := map[*ssa.Function]bool{}
+	for _, f := range p.Funcs {
+		if f.Blocks == nil || !p.InPkg(f) {
+			continue
+		}
+		for _, b := range f.Blocks {
+			for _, in := range b.Instrs {
+				if c, ok := in.(*ssa.Call); ok && c.Common().IsInvoke() && c.Common().Method.Name() == "Get" && types.Identical(c.Common().Value.Type(), a.TemplateLoader) {
+					resolver[f] = true
+				}
+			}
+		}
+	}
+	n := 0
+	for _, f := range p.inPkgFuncsSorted(p.allFuncSet()) {
+		if implementsLoader(p, a, f) {
+			continue
+		}
+		k := 0
+		for _, b := range f.Blocks {
+			for _, in := range b.Instrs {
+				c, ok := in.(*ssa.Call)
+				if !ok || c.Common().StaticCallee() == nil {
+					continue
+				}
+				cal := c.Common().StaticCallee()
+				name := p.extName(cal)
+				if !(name == "io.ReadAll" || name == "os.ReadFile" || name == "io/ioutil.ReadAll" || resolver[cal]) {
+					continue
+				}
+				tup, isT := c.Type().(*types.Tuple)
+				if !isT || tup.Len() < 2 || typeName(tup.At(tup.Len()-1).Type()) != "error" {
+					continue
+				}
+				n++
+				k++
+				key := p.FuncName(f) + ":" + cal.Name() + ":error"
+				if k > 1 {
+					key += "#" + strconv.Itoa(k)
+				}
+				used := false
+				dropped := ""
+				for _, u := range refs(c) {
+					ex, isEx := u.(*ssa.Extract)
+					if !isEx || ex.Index != tup.Len()-1 {
+						continue
+					}
+					// the error value, possibly through a local cell or a phi: every nil test of it must send the
+					// non-nil case to an error return; returning it or handing it on counts as used
+					seen := map[ssa.Value]bool{}
+					var walk func(v ssa.Value, d int)
+					walk = func(v ssa.Value, d int) {
+						if seen[v] || d > 6 {
+							return
+						}
+						seen[v] = true
+						for _, uu := range refs(v) {
+							switch x := uu.(type) {
+							case *ssa.BinOp:
+								if (x.Op != token.EQL && x.Op != token.NEQ) || !(isNilConst(x.X) || isNilConst(x.Y)) {
+									used = true
+									continue
+								}
+								for _, bu := range refs(x) {
+									iff, isIf := bu.(*ssa.If)
+									if !isIf {
+										used = true
+										continue
+									}
+									nonNil := iff.Block().Succs[0]
+									if x.Op == token.EQL {
+										nonNil = iff.Block().Succs[1]
+									}
+									if errorReturnsOnly(f, nonNil) {
+										used = true
+									} else if dropped == "" {
+										dropped = p.InstrPos(iff)
+									}
+								}
+							case *ssa.Return, *ssa.Call, *ssa.MakeInterface, *ssa.TypeAssert, *ssa.ChangeInterface:
+								used = true
+							case *ssa.Phi:
+								walk(x, d+1)
+							case *ssa.Store:
+								if x.Val == v {
+									for _, lu := range refs(x.Addr) {
+										if l, isL := lu.(*ssa.UnOp); isL && l.Op == token.MUL {
+											walk(l, d+1)
+										}
+									}
+									if _, isAlloc := x.Addr.(*ssa.Alloc); !isAlloc {
+										used = true // stored into a field/result: handed on
+									}
+								}
+							}
+						}
+					}
+					walk(ex, 0)
+				}
+				if dropped != "" {
+					r.Bad(key, p.InstrPos(in), "the error of %s is tested at %s, but its non-nil case does not end in an error return: a source the loader handed out but that cannot be read (a directory, a stream that breaks off) is taken for an empty text", name, dropped)
+					continue
+				}
+				if used {
+					r.OK(key, p.InstrPos(in), "the error of %s is looked at", name)
+				} else {
+					r.Bad(key, p.InstrPos(in), "the error result of %s is never used: a source that the loader handed out but that cannot be read (a directory, a stream that breaks off) is taken for an empty text", name)
+				}
+			}
+		}
+	}
+	if n == 0 {
+		r.Unk("reads", "-", "no read of a loader's reader found outside the loaders")
 	}
 }
